@@ -15,6 +15,10 @@ m = {
   "add_only": True
  },
  "engines": [
+  {"name": "proxy", "path": "harness/inpkg/zz_verif_proxy_test.go + lean/KamalProxy/Model/Proxy.lean", "serves_properties": ["C01","C02","C03","C05","C07","C08","C09","C17"], "kind_free_text": "schedules (requests, commands, probe scripts, hook releases, virtual time) against a real Router under testing/synctest with tag-guarded hook parking, diffed against the Lean concurrent timed model"},
+  {"name": "rollout", "path": "harness/inpkg/zz_verif_rollout_test.go", "serves_properties": ["C10"], "kind_free_text": "split point for every percentage, cookie extraction and decision as pure functions"},
+  {"name": "buffer", "path": "harness/inpkg/zz_verif_buffer_test.go", "serves_properties": ["C14"], "kind_free_text": "exhaustive small scope on Buffer + request/response buffering middlewares with a private TMPDIR"},
+  {"name": "snapshot", "path": "harness/inpkg/zz_verif_snapshot_test.go", "serves_properties": ["C12"], "kind_free_text": "crash points and overlapping commands of the state snapshot write (real clock)"},
   {"name": "control", "path": "harness/inpkg/zz_verif_control_test.go + lean/KamalProxy/Driver/Control.lean", "serves_properties": ["C04","C05","C06","C08","C10","C11","C16"], "kind_free_text": "command histories against a real Router in a synctest bubble with an in-memory network, diffed against the Lean control-plane model"},
  ],
  "checks": [], "not_applicable": [],
